@@ -9,9 +9,8 @@
 (* Every event is consumed (never stuck): Level 1 (Req) is evaluated on    *)
 (* the real observation -> `bad`; real vs predicted -> `drift`.            *)
 (***************************************************************************)
-EXTENDS Json, IOUtils, TLC, Sequences, Naturals, FiniteSets, SequencesExt
+EXTENDS TraceLib
 R == INSTANCE Req
-Rec == ndJsonDeserialize(IOEnv.TRACE)
 
 VARIABLES l, bad, drift
 vars == <<l, bad, drift>>
@@ -33,8 +32,5 @@ Step == /\ l <= Len(Rec) /\ l' = l + 1
            /\ drift' = drift \cup { [case |-> e.case, field |-> f] : f \in Drifts(e) }
 Spec == Init /\ [][Step]_vars
 
-Reg == TLCSet(1, bad) /\ TLCSet(2, l) /\ TLCSet(3, drift)
-Post == /\ TLCGet(2) = Len(Rec) + 1
-        /\ ndJsonSerialize(IOEnv.OUT, SetToSeq(TLCGet(1)))
-        /\ ndJsonSerialize(IOEnv.DRIFT, SetToSeq(TLCGet(3)))
+RegC == Reg(l, bad, drift)
 =============================================================================
